@@ -233,6 +233,8 @@ enum Use {
     RepeatFailing,
     /// the constant is read by a callee of a function whose parameter has the constant's name
     ValueThroughCalls,
+    /// the only parameter is an array sized by a constant EXPRESSION: one party per element
+    SingleArrayPartiesConstExpr,
 }
 
 /// (source using const R, source with the value substituted, number of input parties description)
@@ -258,6 +260,10 @@ fn use_sources(u: Use, t: CTy, rname: &str, rval: i128) -> Option<(String, Strin
             let op = if t == CTy::Bool { "^" } else { "+" };
             (format!("pub fn main(x: {tn}) -> {tn} {{\n  x {op} {rname}\n}}\n"), format!("pub fn main(x: {tn}) -> {tn} {{\n  x {op} {rl}\n}}\n"))
         }
+        Use::SingleArrayPartiesConstExpr => (
+            format!("pub fn main(a: [u8; const {{ {rname} + 1usize }}]) -> u8 {{\n  let mut s = 1u8;\n  for e in a {{\n    s = s ^ e;\n  }}\n  s\n}}\n"),
+            format!("pub fn main(a: [u8; {}]) -> u8 {{\n  let mut s = 1u8;\n  for e in a {{\n    s = s ^ e;\n  }}\n  s\n}}\n", n + 1),
+        ),
         Use::ValueThroughCalls => (
             format!("fn inner(x: {tn}) -> {tn} {{\n  x ^ {rname}\n}}\nfn outer({rname}: {tn}, x: {tn}) -> {tn} {{\n  inner(x) & {rname}\n}}\npub fn main(x: {tn}, y: {tn}) -> ({tn}, {tn}) {{\n  (outer(y, x), inner(y))\n}}\n"),
             format!("fn inner(x: {tn}) -> {tn} {{\n  x ^ {rl}\n}}\nfn outer({rname}: {tn}, x: {tn}) -> {tn} {{\n  inner(x) & {rname}\n}}\npub fn main(x: {tn}, y: {tn}) -> ({tn}, {tn}) {{\n  (outer(y, x), inner(y))\n}}\n"),
@@ -315,6 +321,13 @@ fn input_sets(u: Use, t: CTy, size: usize) -> Vec<Vec<Vec<bool>>> {
             let mut out = vec![];
             for fill in [0u8, 1, 255, 170] {
                 out.push((0..size).map(|k| u8bits(fill.wrapping_add(3 * k as u8))).collect());
+            }
+            out
+        }
+        Use::SingleArrayPartiesConstExpr => {
+            let mut out = vec![];
+            for fill in [0u8, 1, 255, 170] {
+                out.push((0..size + 1).map(|k| u8bits(fill.wrapping_add(3 * k as u8))).collect());
             }
             out
         }
@@ -391,7 +404,7 @@ fn check_pair(t: CTy, sec_name: &str, sec: &Section, u: Use, ext: &HashMap<(&'st
     }
     let (rname, _) = sec.last().unwrap();
     let rval = cvals[rname];
-    let size_use = matches!(u, Use::ArrayTypeSize | Use::Repeat | Use::SingleArrayParties | Use::LoopCount | Use::ConstExprSize | Use::RepeatLet | Use::RepeatFailing);
+    let size_use = matches!(u, Use::ArrayTypeSize | Use::Repeat | Use::SingleArrayParties | Use::LoopCount | Use::ConstExprSize | Use::RepeatLet | Use::RepeatFailing | Use::SingleArrayPartiesConstExpr);
     if size_use && (!(0..=48).contains(&rval) || wide_max > 48) {
         // resource bound: never ask the compiler for an astronomically large array
         cnt.skipped_big.fetch_add(1, Ordering::Relaxed);
@@ -846,13 +859,15 @@ pub fn run(tier: Tier) -> i32 {
             }
             let exts: Vec<_> = exts.into_iter().collect();
             let uses: Vec<Use> = match t {
-                CTy::Int(IntTy::Usize) => vec![Use::ArrayTypeSize, Use::Repeat, Use::SingleArrayParties, Use::LoopCount, Use::Value, Use::Index, Use::ConstExprSize, Use::RepeatLet, Use::RepeatFailing, Use::ValueThroughCalls],
+                CTy::Int(IntTy::Usize) => vec![Use::ArrayTypeSize, Use::Repeat, Use::SingleArrayParties, Use::LoopCount, Use::Value, Use::Index, Use::ConstExprSize, Use::RepeatLet, Use::RepeatFailing, Use::ValueThroughCalls, Use::SingleArrayPartiesConstExpr],
                 _ => vec![Use::Value, Use::ValueThroughCalls],
             };
             for u in uses {
                 let size_use = !matches!(u, Use::Value | Use::Index | Use::ValueThroughCalls);
                 let alphabet: Vec<i128> = match t {
                     CTy::Bool => vec![0, 1],
+                    // (R + 1 elements: MAX would wrap to an empty array in the constant version only)
+                    CTy::Int(_) if u == Use::SingleArrayPartiesConstExpr => vec![0, 1, 2, 3, 5],
                     CTy::Int(it) if size_use => vec![0, 1, 2, 3, 5, it.max()],
                     CTy::Int(it) => {
                         let mut v = vec![0, 1, 2, 3, it.max() - 1, it.max(), it.min(), -1];
